@@ -159,11 +159,12 @@ class Config(object):
         self.timeout = timeout              # seconds or None
         self.rules = rules or []            # see classmodel
         self.use_class = use_class or bool(rules)
+        self.omit_xquery = False            # True: render no iauth_xquery section at all
 
     def text(self, moddir):
         import classmodel
         return daemon.default_conf(moddir, modules=("iauth_class",) if self.use_class else ("iauth_xquery",),
-                                   timeout=self.timeout, services=self.services,
+                                   timeout=self.timeout, services=(None if self.omit_xquery else self.services),
                                    rules_text=classmodel.render_rules(self.rules) if self.rules else "")
 
     def proto_of(self, svc):
